@@ -63,3 +63,7 @@ claim('C03', 'CBMC differential harnesses on the real code: code generator liter
       'Solver-decided for all int64 values: the literal the real write_long_number encodes is the value the real interpreter pushes; x[i] and x[<i] on strings and buffers return the referenced byte for in-range indices and raise an error for every out-of-range int64 index.',
       'Only the literal and index parts of C03 are covered: op= vs op, loops, switch, folding, mappings and the compiler choice of opcodes are not; buffer element values are compared at index 0 only (CBMC struct-hack limitation).',
       'DESIGN.md 5/C03')
+claim('C02', 'CBMC on the real compiler locals bookkeeping (init_locals, add_local_name, reallocate_locals, de/reactivate, pop_n_locals) with the function-literal grammar actions replayed',
+      'Solver-decided memory safety of every table write against the blocks really allocated, cursors back at base and no stale local binding after unwinding, limit on the total number of local slots across sibling blocks; per-level counts are concrete per run, everything else is executed symbolically.',
+      'Only the locals kernel of C02 is covered: lexer, preprocessor, mem_block growth, scratchpad, identifier table and termination of yyparse are not; the bison actions are replayed, not called.',
+      'DESIGN.md 5/C02')
